@@ -82,27 +82,20 @@ impl InkList {
     }
 
     pub fn get_max_item(&self) -> Option<(&InkListItem, i32)> {
-        let mut max: Option<(&InkListItem, i32)> = None;
-
-        for (k, v) in &self.items {
-            if max.is_none() || *v > max.as_ref().unwrap().1 {
-                max = Some((k, *v));
-            }
-        }
-
-        max
+        // Items of different lists may share the extreme value: break the tie
+        // by name, so that the answer does not depend on hash-map iteration
+        // order (which differs from run to run).
+        self.items
+            .iter()
+            .max_by(|a, b| a.1.cmp(b.1).then_with(|| b.0.get_full_name().cmp(&a.0.get_full_name())))
+            .map(|(item, value)| (item, *value))
     }
 
     pub fn get_min_item(&self) -> Option<(&InkListItem, i32)> {
-        let mut min: Option<(&InkListItem, i32)> = None;
-
-        for (k, v) in &self.items {
-            if min.is_none() || *v < min.as_ref().unwrap().1 {
-                min = Some((k, *v));
-            }
-        }
-
-        min
+        self.items
+            .iter()
+            .min_by(|a, b| a.1.cmp(b.1).then_with(|| a.0.get_full_name().cmp(&b.0.get_full_name())))
+            .map(|(item, value)| (item, *value))
     }
 
     pub fn set_initial_origin_names(&self, initial_origin_names: Vec<String>) {
